@@ -118,7 +118,9 @@ PROPS = {
     ),
     "C06": dict(
         module="Anonymongo.Props.C06",
-        theorems=["Anonymongo.C06_local", "Anonymongo.C06_skip", "Anonymongo.C07_others", "Anonymongo.C06_faultfree", "Anonymongo.C06_crlf", "Anonymongo.C06_final"],
+        theorems=["Anonymongo.C06_local", "Anonymongo.C06_skip", "Anonymongo.C07_others", "Anonymongo.C06_faultfree", "Anonymongo.C06_crlf", "Anonymongo.C06_final",
+                  "Anonymongo.parseObj_append"],
+        extra_modules=["Anonymongo.Lemmas.ParseExt"],
         corr=["stream", "line", "text"],
         statement="for an arbitrary line function: processLines (A++B) = processLines A ++ processLines B; skipped lines contribute nothing; a fault-free run of the scan loop emits exactly the order-preserving map over the scanned lines; CRLF and LF texts of the same lines scan to the same tokens; the final newline is optional",
         partial="channel independence (file / .gz / stdin x stdout / --outputFile, progress bar) is runtime behaviour of os, gzip and the terminal: established by whole-program runs compared byte for byte with the per-line results, not by a theorem; 'is a JSON object' is the model parser, corresponded with encoding/json",
@@ -134,10 +136,12 @@ PROPS = {
     ),
     "C08": dict(
         module="Anonymongo.Props.C06",
-        theorems=["Anonymongo.C08_ok_iff", "Anonymongo.C08_write_prefix", "Anonymongo.C08_read_prefix", "Anonymongo.emitAll_prefix"],
-        corr=["stream"],
-        statement="for every input, read-fault position and failing-write index: the result is ok iff no fault was reached and no line is over-long; bytes written before a failing write are a whole-line prefix of the fault-free output; a read fault at a line boundary yields a prefix and an error",
-        partial="C08_read_prefix is stated for cuts at line boundaries; a cut inside a line hands the partial tail to the parser, which rejects every proper prefix of a JSON object since the fix of the truncated-object defect (corresponded, sampled at every kind of offset) - the general statement for mid-line cuts is not yet a theorem. Real devices (/dev/full, closed pipe) and gzip damage are runtime: whole-program runs",
+        theorems=["Anonymongo.C08_ok_iff", "Anonymongo.C08_write_prefix", "Anonymongo.C08_read_prefix", "Anonymongo.emitAll_prefix",
+                  "Anonymongo.C08_read_cut", "Anonymongo.parseObj_append", "Anonymongo.parseObj_cut_rejected", "Anonymongo.parseValue_ext", "Anonymongo.parseStrBody_ext"],
+        extra_modules=["Anonymongo.Lemmas.ParseExt"],
+        corr=["stream", "text"],
+        statement="for every input, read-fault position and failing-write index: the result is ok iff no fault was reached and no line is over-long; bytes written before a failing write are a whole-line prefix of the fault-free output; READ FAULT ANYWHERE (C08_read_cut): the input being complete lines A, a piece p of the next line (empty, partial or the whole line without its newline) and anything after it, a read failing once A and p were delivered writes exactly the fault-free output of A - p is never processed - which is a prefix of the fault-free output of the whole input, and the result is the read error; PARSER (Lemmas/ParseExt): what follows a value does not matter (parseValue_ext / parseStrBody_ext: accepted on x leaving r => accepted on x ++ q leaving r ++ q with the same result, any larger fuel), hence an accepted line followed by anything is accepted iff that is white space, as the SAME object (parseObj_append), and a line cut inside or right behind its object is never accepted as a different line (parseObj_cut_rejected)",
+        partial="the stream loop model (Model/Stream.lean: bufio.Scanner delivering the unterminated remainder also after a read error, set aside since fix 17c9f34) is tied to the code by the stream correspondence with fault scripts (read faults at chunk sizes 1/64/4096, positions behind every closing brace); real devices (/dev/full, closed pipe) and gzip damage are runtime: whole-program runs",
     ),
     "C04": dict(
         module="Anonymongo.Props.C04",
